@@ -34,6 +34,48 @@ ABORT_DURING_STARTUP = os.environ.get('VERIF_C17_ABORT_DURING_STARTUP') == '1'
 ABORTS = {'ConnectionAbortedError': ConnectionAbortedError, 'OSError': OSError, 'TimeoutError': TimeoutError}
 
 
+# how the caller hands a route name to route(), and what it does with that object once route() has returned: the name
+# a route was DECLARED with is the one every later connection must register (the objects stay the caller's)
+ROUTE_REPRS = ['str', 'list', 'list-grow', 'balist', 'wire-ba', 'tuple', 'iter', 'list-shrink']
+
+
+def _route_name(uri, how):
+    comps = [bytes([8, len(t)]) + t.encode() for t in uri.strip('/').split('/')]
+    if how == 'str':
+        return uri, lambda: None
+    if how == 'list':                # a list of immutable components, item-assigned afterwards
+        l = list(comps)
+
+        def f():
+            l[-1] = b'\x08\x03zzz'
+        return l, f
+    if how == 'list-grow':           # the caller builds a longer name from the list it passed
+        l = list(comps)
+        return l, lambda: l.append(b'\x08\x06status')
+    if how == 'list-shrink':
+        l = list(comps)
+        return l, lambda: l.pop()
+    if how == 'balist':              # mutable component buffers, overwritten afterwards
+        l = [bytearray(c) for c in comps]
+
+        def f():
+            for b in l:
+                b[2:] = b'#' * (len(b) - 2)
+        return l, f
+    if how == 'wire-ba':             # an encoded Name in a reused buffer
+        v = b''.join(comps)
+        ba = bytearray(bytes([7, len(v)]) + v)
+
+        def f():
+            ba[2:] = b'\x08' + bytes([len(ba) - 4]) + b'#' * (len(ba) - 4)
+        return ba, f
+    if how == 'tuple':
+        return tuple(comps), lambda: None
+    if how == 'iter':
+        return iter(list(comps)), lambda: None
+    raise ValueError(how)
+
+
 def _conn(rng, last, n_known):
     r = rng.random()
     if last or r < 0.25:
@@ -78,7 +120,10 @@ def cases(rng, tier):
                 c = {'end': 'close', 'during': 0, 'after': 1, 'between': 1, 'gap_ms': 0}
             conns.append(c)
             known += c['during'] + c['after'] + c['between']
-        yield {'mode': 'rc', 'fe': 'v2' if i % 3 else 'v1', 'before': before, 'conns': conns}
+        c = {'mode': 'rc', 'fe': 'v2' if i % 3 else 'v1', 'before': before, 'conns': conns}
+        if i % 2:
+            c['reprs'], c['rsalt'] = True, rng.randrange(len(ROUTE_REPRS))
+        yield c
 
 
 def shrink(case):
@@ -162,7 +207,10 @@ def run(case):
         def declare(tag):
             nm = f'/rc/{tag}{len(names)}'
             names.append(nm)
-            a.route(nm)(lambda *x, **k: None)
+            how = ROUTE_REPRS[(len(names) + case.get('rsalt', 0)) % len(ROUTE_REPRS)] if case.get('reprs') else 'str'
+            obj, scribble = _route_name(nm, how)
+            a.route(obj)(lambda *x, **k: None)
+            scribble()        # route() has returned: the caller goes on using ITS objects (they were never the library's)
 
         def registered(ci):
             regs = []
